@@ -116,7 +116,12 @@ pub fn c10(ctx: &mut Ctx) {
     }
     bytes::placement_bound(ctx);
     let lim = bytes::cross_limit(ctx);
+    // in the unoptimised second build (common::unoptimised_build_pass) only the long inputs are run
+    let child = super::common::is_frames_child();
     for sp in spaces {
+        if child {
+            continue;
+        }
         sp.run(ctx, &sp.name, lim, |s, l| sdes_case(s, l));
     }
     // single chunks with more than 65 535 bytes of items (where a 16-bit sum of item lengths wraps)
@@ -124,6 +129,14 @@ pub fn c10(ctx: &mut Ctx) {
         let sp = bytes::giants_runs_space();
         ctx.bound("giant chunks", "6 SDES packets whose single chunk holds 258..33000 items and more than 65535 bytes (the header-only runs of the same space are outside the domain and skipped)");
         sp.run(ctx, &sp.name, 0, |s, l| sdes_case(s, l));
+        // the 262144-byte packets of every type and fill: among them the SDES packets of 32767 minimal chunks
+        let sp = bytes::giants_space();
+        ctx.bound("giants", "the S6 giants (262144-byte packets of each type x 4 fills, among them SDES packets of 32767 8-byte chunks, ...)");
+        sp.run(ctx, &sp.name, 0, |s, l| sdes_case(s, l));
+    }
+    if child {
+        // the unoptimised second build ends here
+        return;
     }
     for sp in gens::sdes_spaces(ctx.tier, ctx.seed) {
         let get = &sp.get;
@@ -177,4 +190,5 @@ pub fn c10(ctx: &mut Ctx) {
     ctx.require_hit("class: must-reject");
     ctx.require_hit("class: either");
     ctx.require_hit("either: accepted");
+    super::common::unoptimised_build_pass(ctx, "the long inputs (S6 giants, SDES packets whose single chunk holds up to 33000 items)");
 }
